@@ -17,5 +17,6 @@ mod driver_threaded;
 mod refdec;
 mod refenc;
 mod extremes;
+mod keepalive;
 
 pub(crate) fn tier_thorough() -> bool { std::env::var("VERIF_TIER").map(|v| v == "thorough").unwrap_or(false) }
